@@ -470,10 +470,10 @@ theorem pollNext_inbound (t : SimT) : t.pollNext.1.inbound.length ≤ t.inbound.
     (∀ m, t.pollNext.2 = .item m → t.pollNext.1.inbound.length + 1 = t.inbound.length) := by
   unfold SimT.pollNext; split
   · exact ⟨Nat.le_refl _, by simp⟩
-  · split
-    · rename_i m rest heq; simp [heq]
-    · rename_i rest heq; simp [heq]
-    · split <;> exact ⟨Nat.le_refl _, by simp⟩
+  · simp only; split
+    · rename_i m rest heq; simp at heq; simp [heq]
+    · rename_i rest heq; simp at heq; simp [heq]
+    · split <;> exact ⟨by simp, by simp⟩
 
 theorem tNext_mstep (s : St) : MStep s (tNext s).1 0 ∧ (∀ m, (tNext s).2 = .item m → MStep s (tNext s).1 1) := by
   have hi := pollNext_inbound s.t
